@@ -65,6 +65,10 @@ func drawGate(r *Rng, b gateBias) gateCfg {
 	}
 	nops := 4 + r.Intn(b.MaxOps)
 	prios := []int{0, 0, 1, 1, 2, -1, 5, -(1 << 62), 1 << 62}
+	if c.QK.Priority() && r.Chance(40) {
+		// one or two priority levels only: arrival order among equals decides nearly every dispatch
+		prios = Pick(r, []int{0}, []int{3}, []int{0, 0, 0, 1}, []int{-1, 7})
+	}
 	// some programs first lower or raise the limit and go through Stop/Restart, so that the limit in
 	// effect after a restart is the tuned one
 	if b.Tune && b.Life && r.Chance(30) {
@@ -77,6 +81,18 @@ func drawGate(r *Rng, b gateBias) gateCfg {
 	// start with a burst of adds so that the pool saturates
 	for i := 0; i < max(c.Conc, 5)+1+r.Intn(3); i++ {
 		c.Ops = append(c.Ops, gateOp{Kind: "add", Prio: Pick(r, prios...)})
+	}
+	if c.QK == QPrio && len(prios) <= 4 {
+		// drain a little, then add: the newcomers rank behind everything of their priority that is still
+		// pending, however many have left the queue since those were added
+		for rep := 0; rep < 1+r.Intn(3); rep++ {
+			for i := 0; i < 1+r.Intn(3); i++ {
+				c.Ops = append(c.Ops, gateOp{Kind: "release", Arg: 0})
+			}
+			for i := 0; i < 1+r.Intn(2); i++ {
+				c.Ops = append(c.Ops, gateOp{Kind: "add", Prio: Pick(r, prios...)})
+			}
+		}
 	}
 	if c.QK.Adapter() && b.Tune && c.Conc >= 3 && r.Chance(50) {
 		// a dispatch burst is suspended inside the adapter with spare capacity under the old limit only,
@@ -215,6 +231,7 @@ func epGate(c *RunCtx, cfg gateCfg) *Result {
 		var startOrder []int // model dispatch order (for the final order check)
 		tuned := false
 		var hold chan struct{}
+		lifeSeen := false
 		check := func(step int, op string) bool {
 			synctest.Wait()
 			if led != nil {
@@ -238,6 +255,17 @@ func epGate(c *RunCtx, cfg gateCfg) *Result {
 				}
 			}
 			where := fmt.Sprintf("step %d after %s", step, op)
+			switch op {
+			case "pause", "resume", "stop", "restart":
+				lifeSeen = true
+			}
+			// the order clause of C09: what was pending across a pause/stop window is served in queue order
+			orderFail := func(rule, det string) {
+				e.Fail("C04", rule, cfg.QK.String(), det)
+				if lifeSeen {
+					e.Fail("C09", "order-after-resume", cfg.QK.String(), det)
+				}
+			}
 			want, got := keys(m.running), keys(obs)
 			if fmt.Sprint(want) != fmt.Sprint(got) {
 				// attribute: too many => C02, too few with pending => C03, wrong members => C04
@@ -246,7 +274,7 @@ func epGate(c *RunCtx, cfg gateCfg) *Result {
 				if m.transit != nil && !obs[m.transit.idx] {
 					for _, later := range m.queue {
 						if obs[later.idx] {
-							e.Fail("C04", "started-set-not-prefix", cfg.QK.String(), det+fmt.Sprintf("; job %d was taken from the queue first and has not started", m.transit.idx))
+							orderFail("started-set-not-prefix", det+fmt.Sprintf("; job %d was taken from the queue first and has not started", m.transit.idx))
 						}
 					}
 				}
@@ -257,7 +285,7 @@ func epGate(c *RunCtx, cfg gateCfg) *Result {
 					if !obs[j.idx] {
 						for _, later := range m.queue {
 							if later.seq != j.seq && obs[later.idx] {
-								e.Fail("C04", "started-set-not-prefix", cfg.QK.String(), det)
+								orderFail("started-set-not-prefix", det)
 							}
 						}
 					}
@@ -275,7 +303,7 @@ func epGate(c *RunCtx, cfg gateCfg) *Result {
 				case len(got) < len(want):
 					e.Fail("C03", "no-progress-at-quiescence", "", det)
 				default:
-					e.Fail("C04", "wrong-job-dispatched", cfg.QK.String(), det)
+					orderFail("wrong-job-dispatched", det)
 				}
 				if tuned {
 					e.Fail("C18", "tune-capacity", "", det)
@@ -600,6 +628,9 @@ func epGate(c *RunCtx, cfg gateCfg) *Result {
 			}
 			if fmt.Sprint(ro) != fmt.Sprint(startOrder) {
 				e.Fail("C04", "execution-order", cfg.QK.String(), fmt.Sprintf("execution order %v, reference order %v", ro, startOrder))
+				if lifeSeen {
+					e.Fail("C09", "order-after-resume", cfg.QK.String(), fmt.Sprintf("execution order %v, reference order %v", ro, startOrder))
+				}
 			}
 		}
 		// idle trimming (C18): after the idle period only the configured minimum stays
